@@ -160,6 +160,7 @@ extern "C" FILE* fopen64(char const* path, char const* mode)
         return real(path, mode);
     }
 
+    sim::fs_sched_point();
     sim::note_rank(m);
 
     bool const trunc = (mode[0] == 'w');
@@ -242,8 +243,9 @@ extern "C" FILE* fopen64(char const* path, char const* mode)
     return fdopen(fd, mode);
 }
 
-static ssize_t model_write(int fd, char const* data, size_t n, std::string const& path)
+static ssize_t model_write(int fd, char const* data, size_t n, std::string const path)
 {
+    sim::fs_sched_point();
     sim::FsModel& m = fs();
     std::uint64_t const ev = m.nevent++;
     ++m.n_events_total;
@@ -355,6 +357,11 @@ extern "C" int fclose(FILE* fp)
 
     sim::FsModel& m = fs();
 
+    if (m.active && fp != nullptr && m.fds.count(fileno(fp)))
+    {
+        sim::fs_sched_point();
+    }
+
     if (m.active && fp != nullptr)
     {
         int const fd = fileno(fp);
@@ -414,6 +421,7 @@ extern "C" int rename(char const* from, char const* to)
         return real(from, to);
     }
 
+    sim::fs_sched_point();
     sim::note_rank(m);
     std::uint64_t const ev = m.nevent++;
     ++m.n_events_total;
@@ -462,6 +470,7 @@ extern "C" int rename(char const* from, char const* to)
 
 static int model_remove(char const* path)
 {
+    sim::fs_sched_point();
     sim::FsModel& m = fs();
     sim::note_rank(m);
     std::uint64_t const ev = m.nevent++;
